@@ -364,8 +364,17 @@ def run_one(repo, cfg, evs):
 
 
 def _work(args):
+    """a worker gives up on its chunk after the first case that trips the wall-clock watchdog
+    (every further case would cost the same seconds); the skipped ones come back as None"""
     repo, jobs = args
-    return [run_one(repo, cfg, evs) for cfg, evs in jobs]
+    out = []
+    for cfg, evs in jobs:
+        r = run_one(repo, cfg, evs)
+        out.append(r)
+        if any(k == 'c08:livelock' and 'wall-clock' in why for k, why in r[0]):
+            out += [None] * (len(jobs) - len(out))
+            break
+    return out
 
 
 def run_all(ctx, jobs):
@@ -400,6 +409,11 @@ def evaluate(ctx, jobs, res, label, chunk=40000):
 
 def _evaluate(ctx, jobs, res, label):
     results = run_all(ctx, jobs)
+    skipped = sum(1 for r in results if r is None)
+    if skipped:
+        res.count(f'{label}_skipped_after_watchdog', skipped)
+        kept = [(j, r) for j, r in zip(jobs, results) if r is not None]
+        jobs, results = [j for j, _ in kept], [r for _, r in kept]
     lts_idx = [i for i, r in enumerate(results) if r[1] is not None]
     model = ctx.model([model_line(ctx, *jobs[i]) for i in lts_idx]) if lts_idx else []
     mm = dict(zip(lts_idx, model)) if model is not None else {}
@@ -472,9 +486,12 @@ def run(ctx):
     res['scopes']['lifecycle'] = {'scopes': [[a, m] for a, m in scopes], 'cases': len(lts)}
 
     # crash-point enumeration
-    jobs = crash_cases('rpc', RPC_STEPS_QUICK, 3)
-    jobs += crash_cases('msg', MSG_STEPS_QUICK, 3, start=1)
     main_faults = ['drop', 'close', 'close2_stalled', 'handler_close', 'abort']
+    jobs = crash_cases('rpc', RPC_STEPS_QUICK, 2)
+    jobs += crash_cases('msg', MSG_STEPS_QUICK, 2, start=1)
+    f3 = FAULTS if ctx.deep else main_faults
+    jobs += crash_cases('rpc', RPC_STEPS_QUICK, 3, faults=f3, minlen=3)
+    jobs += crash_cases('msg', MSG_STEPS_QUICK, 3, faults=f3, start=1, minlen=3)
     if ctx.deep and not res.failed:
         jobs += crash_cases('rpc', RPC_STEPS_QUICK, 4, faults=main_faults, minlen=4)
         jobs += crash_cases('msg', MSG_STEPS_QUICK, 4, faults=main_faults, start=1, minlen=4)
@@ -486,12 +503,12 @@ def run(ctx):
     evaluate(ctx, jobs, res, 'crashpoint_exhaustive')
     res['scopes']['crashpoint_exhaustive'] = {
         'rpc_alphabet': RPC_STEPS_QUICK, 'msg_alphabet': MSG_STEPS_QUICK,
-        'max_len_all_faults': 3, 'max_len_main_faults': 4 if ctx.deep else 3,
+        'max_len_all_faults': 3 if ctx.deep else 2, 'max_len_main_faults': 4 if ctx.deep else 3,
         'main_faults': main_faults,
         'full_alphabets': [RPC_STEPS_FULL, MSG_STEPS_FULL],
         'full_alphabet_max_len': 2 if ctx.deep else 1,
         'faults': FAULTS, 'runs': len(jobs)}
-    rnd = random_crash_cases(ctx.rng, 80000 if ctx.deep else 5000, 8 if ctx.deep else 6)
+    rnd = random_crash_cases(ctx.rng, 120000 if ctx.deep else 5000, 8 if ctx.deep else 6)
     if not res.failed:
         evaluate(ctx, rnd, res, 'crashpoint_random')
     res['scopes']['crashpoint_random'] = len(rnd)
